@@ -13,4 +13,6 @@ if [ "$PATCH" = "-" ]; then cat > $WT/.mut.diff; PATCH=$WT/.mut.diff; fi
 git -C $WT apply $PATCH 2>/dev/null || git -C $WT apply -C1 --recount $PATCH 2>/dev/null || (cd $WT && patch -p1 -F3 --no-backup-if-mismatch < $PATCH) || { echo "patch does not apply"; exit 3; }
 git -C $WT diff --stat | tail -1
 export VERIF_REPO=$WT VERIF_BUILD=$WT/_vbuild
+# evidence and replay files of runs against a mutated tree never land in the committed directories
+export VERIF_EVIDENCE_DIR=/var/tmp/verif-mut-evidence-$SLOT VERIF_FINDINGS_DIR=/var/tmp/verif-mut-findings-$SLOT
 "$@"
